@@ -330,7 +330,7 @@ func uniq(in []string) []string {
 }
 
 func TestProp_Layout(t *testing.T) {
-	pbt.Run(t, pbt.Options{Prop: "C14", Name: "Layout", Quick: 3000, Thorough: 150000,
+	pbt.Run(t, pbt.Options{Prop: "C14", Name: "Layout", Quick: 3000, Thorough: 90000,
 		Rule: "rapid: archive (as C03, plus landmark-named entries in the input and a root entry) x prioritized list of 0-6 paths drawn from {existing entries, their explicit or implicit parents, hardlinks, root, missing paths} in spellings a/b /a/b ./a/b ../a/b a/b/ with repeats x allow-not-found x chunk/min-chunk/workers/compression; " +
 			"oracle: validity predicate from the statement (permutation of the de-duplicated input; one landmark of the right kind; group before the landmark == listed paths + their explicit ancestors + hardlink targets transitively; list order; parents/targets first; rest in input order; TOC offsets of file data strictly before / not before the landmark; missing paths abort or are reported). " +
 			"non-trivial = list has an existing nested path or hardlink, and min-chunk-size > 0 or workers >= 2",
